@@ -203,8 +203,15 @@ class C07:
     def alphabet(self):
         fx = fixture_dir()
         good = gen_text.render(T(RICH["c07api"]))
+        gf = os.path.join(fx, "c07_good.conf")
+        if not os.path.exists(gf):
+            with open(gf, "w", encoding="latin-1") as f:
+                f.write(good)
         return [
             ("parse-good", ["parse_buf", 1, hx(good)]),
+            ("parse-good-stream", ["parse_fp", 1, hx(good)]),
+            ("parse-good-file", ["parse_file", 1, hx(os.path.join(fx, "c07_good.conf"))]),
+            ("parse-include-sections", ["parse_buf", 1, hx("include(inc_single.conf)\nsingle { x = 4 }\n")]),
             ("parse-bad-args", ["parse_buf", 1, hx("p = x\ntm c { q = y }\nfn(a, b, {")]),
             ("parse-bad-nested", ["parse_buf", 1, hx("pl = {u, v}\ntm d { q = z zl = {1, 2\n")]),
             ("parse-bad-include", ["parse_buf", 1, hx("tm e { }\ninclude(inc_bad.conf)\n")]),
